@@ -125,6 +125,7 @@ def eval_spec(spec):
     zeros = sum(int((p == 0).sum()) for _, p in empi)
     cnt("data with empty outcomes" if zeros else "data without empty outcomes")
     iters = {}
+    refcache = {}
     for est in [tuple(e) for e in spec["ests"]]:
         name = est_name(est)
         fam = "ple" if est[0] == "ple" else est[2]
@@ -166,7 +167,8 @@ def eval_spec(spec):
                 tol = None
             # POVM / measurement-process tomography with on_para_eq_constraint=True: the last element is a dependent
             # variable, the installed projection is a nearest-point map for a different metric than the gradient's (D13)
-            cls = kind + ("-dependent-element-parametrisation" if (kind in ("povmt", "qmpt") and spec["para"] and fam == "pgdb") else "")
+            dep = spec["para"] and fam == "pgdb" and (kind == "qmpt" or (kind == "povmt" and (m or 0) > 2))
+            cls = kind + ("-dependent-element-parametrisation" if dep else "")
             if tol is not None and dist > tol:
                 viol(f"C10/{fam}/{cls}/exact-data-not-recovered",
                      f"{name} on {spec['sys']} {data}: |estimate - true| = {dist:.3e} > {tol:.1e}", est)
@@ -177,6 +179,26 @@ def eval_spec(spec):
             if not np.allclose(var, ref.to_var(), rtol=0, atol=1e-12):
                 viol(f"C10/ple/{kind}/not-projection-of-linear",
                      f"{name}: estimate differs from calc_proj_physical(linear estimate) by {np.abs(var - ref.to_var()).max():.3e}", est)
+            # independent reference: nearest physical point of the linear estimate by a numpy Dykstra iteration (elementary
+            # projections written in c10lib.RefProjector) -- the estimate must be that point, and no farther from the linear
+            # estimate than it, to the accuracy of the stopping threshold
+            zlin = lin.to_stacked_vector()
+            key = ("ref", zlin.tobytes())
+            if key not in refcache:
+                refcache[key] = L.RefProjector(lin).project(zlin)
+            xref, nit, conv = refcache[key]
+            if conv:
+                cnt("reference projections")
+                delta = math.sqrt(spec["eps_proj"] or 1e-14)
+                xs_ = obj.to_stacked_vector()
+                gap = float(np.linalg.norm(xs_ - xref))
+                excess = float(np.linalg.norm(xs_ - zlin) - np.linalg.norm(xref - zlin))
+                if gap > 20 * delta + 1e-8 or excess > 10 * delta + 1e-8:
+                    viol(f"C10/ple/{kind}/not-nearest-physical-point",
+                         f"{name} on {spec['sys']} {data}: |estimate - reference projection| = {gap:.3e}, "
+                         f"|estimate - linear| - |reference - linear| = {excess:.3e} (allowed {20 * delta + 1e-8:.1e})", est)
+            else:
+                cnt("reference projection not converged")
             # the projection must not move a physical linear estimate, and must move an unphysical one to the boundary
             le, li = L.defects(lin)
             if le <= 1e-12 and li >= 1e-9 and np.linalg.norm(lin.to_stacked_vector() - obj.to_stacked_vector()) > 1e-6:
